@@ -4,7 +4,7 @@
    the theorems cover every point at which rendering can fail and every chunking. *)
 From Coq Require Import String.
 From Verif Require Import Bytes Textproto SendErr RefServer SmtpSend SmtpSendGen.
-From VerifProofs Require SmtpSendRenderProofs SmtpSendProgramsProofs.
+From VerifProofs Require SmtpSendRenderProofs SmtpSendProgramsProofs SmtpSendInertProofs.
 From VerifProofs Require Import TextprotoProofs SmtpSendProofs SmtpSendGenProofs SmtpSendCorollaries SmtpSendRefuted.
 
 Theorem C03_source_expect_codes : gen_expects = std_expects.
@@ -112,6 +112,15 @@ Theorem C03_failing_producer_never_committed : forall wms date msgid rb (F : fix
           ms (o_results o).
 Proof. exact SmtpSendRenderProofs.failing_producer_never_committed. Qed.
 Print Assumptions C03_failing_producer_never_committed.
+
+(* whatever else the server advertises (PIPELINING, SIZE, CHUNKING, unknown keywords ...): the commit log and the
+   per-message results are those of the run with only the consulted capabilities *)
+Theorem C03_inert_capabilities : forall X F, fx_ehlo_replace F = true ->
+  forall cfg render caps caps_tls script ms name,
+  SmtpSendInertProofs.visible (run_case X F cfg (EOther name :: caps) (EOther name :: caps_tls) script ms render) =
+  SmtpSendInertProofs.visible (run_case X F cfg caps caps_tls script ms render).
+Proof. exact SmtpSendInertProofs.inert_capability_added. Qed.
+Print Assumptions C03_inert_capabilities.
 
 (* Concurrent Send calls on one dialled Client.  Client.Send holds sendMutex across SendWithSMTPClient (T1 below,
    from the lock program the locks engine extracts; mutual exclusion itself is C13_shared_conn_exclusive), so two
